@@ -45,10 +45,11 @@ const (
 	c01rc                // call whose handler returns an error with code InvalidRequest
 	c01rn                // notification whose handler returns an error with code InvalidRequest
 	c01pn                // notification whose handler returns an error with code ParseError
+	c01xc                // call whose handler returns a pre-encoded multi-line json.RawMessage
 	c01numKinds
 )
 
-var c01names = [...]string{"gc", "ic", "ec", "gn", "in", "uc", "un", "vi", "vn", "rc", "rn", "pn"}
+var c01names = [...]string{"gc", "ic", "ec", "gn", "in", "uc", "un", "vi", "vn", "rc", "rn", "pn", "xc"}
 
 type c01member struct {
 	kind c01kind
@@ -85,6 +86,8 @@ func (m c01member) wire() string {
 		return peer.Req("", "r", m.tag)
 	case c01pn:
 		return peer.Req("", "p", m.tag)
+	case c01xc:
+		return peer.Req(m.id, "x", m.tag)
 	}
 	panic("kind")
 }
@@ -147,7 +150,7 @@ func c01build(shapes []c01shape) (msgs []c01msg, gates []string) {
 		for j, k := range sh.kinds {
 			mem := c01member{kind: k, tag: fmt.Sprintf("m%d.%d", i, j)}
 			switch k {
-			case c01gc, c01ic, c01ec, c01uc, c01vi, c01rc:
+			case c01gc, c01ic, c01ec, c01uc, c01vi, c01rc, c01xc:
 				n++
 				if n%2 == 0 {
 					mem.id = fmt.Sprintf(`"s%d"`, n)
@@ -177,6 +180,8 @@ func c01predict(m c01msg, seq map[string]string) string {
 			parts = append(parts, fmt.Sprintf("id=%s error=7:E:%s", mem.id, mem.tag))
 		case c01rc:
 			parts = append(parts, fmt.Sprintf("id=%s error=-32600", mem.id))
+		case c01xc:
+			parts = append(parts, fmt.Sprintf(`id=%s result={"t":%q,"a":[1,2]}`, mem.id, mem.tag))
 		case c01uc:
 			parts = append(parts, fmt.Sprintf("id=%s error=-32601", mem.id))
 		case c01vi:
@@ -352,7 +357,7 @@ type c01run struct {
 func c01exec(c *vt.Ctx, r c01run) {
 	msgs, _ := c01build(r.shapes)
 	peer.Bubble(c, r.ctrl, func() {
-		rig := peer.NewServerRig(c, r.ctrl, peer.ServerOpts{Concurrency: r.conc, AllowPush: r.push > 0})
+		rig := peer.NewServerRig(c, r.ctrl, peer.ServerOpts{Concurrency: r.conc, AllowPush: r.push > 0, RejectLF: true})
 		cbctx, cbcancel := context.WithCancel(context.Background())
 		defer cbcancel()
 		for k := 0; k < r.push; k++ {
